@@ -5,7 +5,7 @@ import plistlib
 import random
 
 from vlib import gt
-from vlib.par import pmap
+from vlib.par import pmap, timeout_failure
 
 PROPERTY = 'C12'
 LEVEL = 'other'
@@ -149,7 +149,7 @@ def bounded(tier, seed, repo_root):
         jobs.append(('csv', rows, '.csv'))
     for _ in range(n // 2):
         jobs.append(('xml', _xml_doc(rnd), '.xml'))
-    fails = [f for fs in pmap(_roundtrip, jobs, repo_root, chunksize=4) for f in fs]
+    fails = [f for fs in pmap(_roundtrip, jobs, repo_root, chunksize=4, job_timeout=60, on_timeout=timeout_failure('C12')) for f in fs]
     # complete check of the per-character escape function
     if tier == 'quick':
         ranges = [(i, min(i + 4096, 0x10000)) for i in range(0, 0x10000, 4096)] + [(0x1F000, 0x1F800), (0x10FF00, 0x110000)]
